@@ -371,6 +371,38 @@ func checkDelivery(r *Result, prop string) []Violation {
 						}
 					}
 				}
+				if prop == "C34" && n == 0 && j.Must[id] && c != nil && !stallActive(r, w.StartSeq, w.EndSeq) && !(c.Conn != nil && everStalled[c.Conn.Idx]) {
+					// a message that was not written must have been reported to the hooks as dropped
+					pidStr := payloadIDOf(op.Pkt.Payload)
+					reportedDrop := hookSeen(r, w, "publish_dropped", id+"|"+pidStr) || hookSeen(r, w, "pid_exhausted", id+"|"+pidStr)
+					for _, e := range r.H.Evs {
+						if e.Seq >= w.StartSeq && e.Seq <= w.EndSeq && e.Kind == "hook" && e.Str == "qos_dropped" && e.Str2 == id+"|"+pidStr {
+							reportedDrop = true
+						}
+					}
+					if !reportedDrop {
+						cause := "unknown"
+						if inflightDropRose {
+							cause = "in-flight-limit"
+						} else if c.MaxPkt > 0 && copySize(op.Pkt, c.Ver, len(j.Matching[id])) > int(c.MaxPkt) {
+							cause = "exceeds-client-maximum-packet-size"
+						} else if viaKinds(j.Matching[id], op.Pkt.Topic) != "exact" || c.Origin != "fresh" {
+							cause = "not-a-drop" // matching / session defects are C01 / C03 / C14 findings, not unreported drops
+						}
+						nnl := 0
+						for _, s := range j.Matching[id] {
+							if s.NoLocal() {
+								nnl++
+							}
+						}
+						if nnl > 0 && j.PubID == id {
+							cause = "not-a-drop"
+						}
+						if cause != "not-a-drop" {
+							out = append(out, viol("C34", "drop-not-reported-to-hooks", fmt.Sprintf("publish op %d %s was not written to connected session %q and no hook was told about a drop (cause: %s)", oi, op.Pkt, id, cause), w.EndSeq, "cause", cause))
+						}
+					}
+				}
 				if prop == "C04" && n >= 1 && c != nil && !j.Group && len(j.Shared[id]) == 0 && len(j.Matching[id]) > 0 {
 					got := live[0].P
 					maxq := byte(0)
